@@ -490,12 +490,12 @@ theorem writable_ok (a : Attribute) (n : Nat) (hdt : a.dataType = dtFLOAT32) (hv
   unfold writable
   rw [if_neg (by simp [hdt]), if_neg (by omega)]
 
-theorem encodeE_eq (c : NumCodec Tok) (g : Geometry) (pos : Attribute)
+theorem encodeTablesE_eq (c : NumCodec Tok) (g : Geometry) (pos : Attribute)
     (hmesh : g.isMesh = true) (hpos : g.ioNamedAtt tPOSITION = some pos) (hvalid : g.valid = true)
     (hnv : pos.numValues ≠ 0) (hpdt : pos.dataType = dtFLOAT32)
     (htdt : ∀ t, texOf g = some t → t.dataType = dtFLOAT32)
     (hndt : ∀ n, nrmOf g = some n → n.dataType = dtFLOAT32) :
-    encodeE c g = .ok (vLines c pos ++ optLines (vtLines c) (texOf g) ++ optLines (vnLines c) (nrmOf g) ++
+    encodeTablesE c g = .ok (vLines c pos ++ optLines (vtLines c) (texOf g) ++ optLines (vnLines c) (nrmOf g) ++
       g.faces.map (fLine pos (texOf g) (nrmOf g))) := by
   obtain ⟨hmem, -⟩ := namedAtt_mem g _ pos hpos
   have hpv := valid_att g hvalid pos hmem
@@ -512,9 +512,30 @@ theorem encodeE_eq (c : NumCodec Tok) (g : Geometry) (pos : Attribute)
     | some t =>
       have hv := valid_att g hvalid t (nrmOf_some g t ht).1
       exact ⟨writable_ok t g.numPoints (hndt t ht) hv, hv⟩
-  unfold encodeE
+  unfold encodeTablesE
   simp only [hpos, hnv, if_false, w1, w2.1, w3.1, hmesh, valid_faces g hvalid, hpv, w2.2, w3.2,
     Bool.and_self, Bool.not_true, Bool.and_false, Bool.false_eq_true, if_true]
+
+/-- on a mesh with at least one face the writer is the table writer -/
+theorem encodeE_mesh (c : NumCodec Tok) (g : Geometry) (hmesh : g.isMesh = true) (hfaces : g.faces ≠ []) :
+    encodeE c g = encodeTablesE c g := by
+  unfold encodeE perPoint
+  have : g.faces.isEmpty = false := by
+    cases hf : g.faces with
+    | nil => exact absurd hf hfaces
+    | cons _ _ => rfl
+  simp [hmesh, this]
+
+theorem encodeE_eq (c : NumCodec Tok) (g : Geometry) (pos : Attribute)
+    (hmesh : g.isMesh = true) (hfaces : g.faces ≠ []) (hpos : g.ioNamedAtt tPOSITION = some pos)
+    (hvalid : g.valid = true)
+    (hnv : pos.numValues ≠ 0) (hpdt : pos.dataType = dtFLOAT32)
+    (htdt : ∀ t, texOf g = some t → t.dataType = dtFLOAT32)
+    (hndt : ∀ n, nrmOf g = some n → n.dataType = dtFLOAT32) :
+    encodeE c g = .ok (vLines c pos ++ optLines (vtLines c) (texOf g) ++ optLines (vnLines c) (nrmOf g) ++
+      g.faces.map (fLine pos (texOf g) (nrmOf g))) := by
+  rw [encodeE_mesh c g hmesh hfaces]
+  exact encodeTablesE_eq c g pos hmesh hpos hvalid hnv hpdt htdt hndt
 
 /-! ### round trip -/
 
@@ -632,7 +653,7 @@ theorem decode_encode (c : NumCodec Tok) (r : Nat → Nat) (g : Geometry) (pos :
     cases hfl : g.faces with
     | nil => exact absurd hfl hfaces
     | cons f fs => have := (hpin f (by rw [hfl]; simp)).1; omega
-  have henc := encodeE_eq c g pos hmesh hpos hvalid hnv hpdt htdt hndt
+  have henc := encodeE_eq c g pos hmesh hfaces hpos hvalid hnv hpdt htdt hndt
   -- abbreviations
   generalize htex : texOf g = tex at *
   generalize hnrm : nrmOf g = nrm at *
